@@ -886,13 +886,13 @@ def c11_forward(R):
                 # extras drops them on that path
                 every_def = True
                 if isinstance(ec, ast.Name) and ec.id != "extra_constraints":
-                    defs_ = [st.value for st in walk_no_nested(fn) if isinstance(st, ast.Assign) and any(isinstance(t, ast.Name) and t.id == ec.id for t in st.targets)]
+                    defs_ = [st.value for st in walk_no_nested(fn) if isinstance(st, ast.Assign) and any(isinstance(x_, ast.Name) and x_.id == ec.id for t in st.targets for x_ in ast.walk(t))]
 
                     def arms_(e_):
                         return arms_(e_.body) + arms_(e_.orelse) if isinstance(e_, ast.IfExp) else [e_]
 
                     defs_ = [a_ for d_ in defs_ for a_ in arms_(d_)]
-                    every_def = bool(defs_) and all(util.depends_on(d_, {"extra_constraints"}, None) or any(isinstance(x, ast.Name) and x.id == ec.id for x in ast.walk(d_)) for d_ in defs_)
+                    every_def = all(util.depends_on(d_, {"extra_constraints"}, None) or any(isinstance(x, ast.Name) and x.id == ec.id for x in ast.walk(d_)) for d_ in defs_)
                 R.check(
                     util.depends_on(ec, {"extra_constraints"}, fn, depth=4) and every_def,
                     m,
